@@ -250,6 +250,12 @@ func (m *monitor) hasReaderOther(e, g int) bool {
 	return false
 }
 
+func (m *monitor) isReader(e, g int) bool {
+	m.mu.Lock()
+	defer m.mu.Unlock()
+	return m.readers[e][g] > 0
+}
+
 func (m *monitor) hasHolderOther(e, g int) bool {
 	return m.hasWriterOther(e, g) || m.hasReaderOther(e, g)
 }
@@ -279,7 +285,9 @@ func blockedSet(mon *monitor, outstanding map[int]op) map[int]bool {
 		return false
 	}
 	for g, o := range outstanding {
-		if o.Kind != opRLock {
+		if o.Kind != opRLock || mon.isReader(o.Ents[0], g) {
+			// (g registered on an entity of its own outstanding operation: the operation has been granted,
+			// its return event is on the way - a goroutine never acquires an entity it already holds)
 			continue
 		}
 		last := -1
